@@ -492,6 +492,8 @@ func (jf *JSONFamily) Install() {
 		_, isSlice := nt.Underlying().(*types.Slice)
 		isArr := isSlice && jt.Schema.Type == "array"
 		switch {
+		case f.Name() == "MarshalJSON" && !ptr && isStruct && len(jt.Schema.OneOf) > 0:
+			jf.installOneOfOuter(f, jt)
 		case f.Name() == "marshalJSONInnerBody" && !ptr && isArr:
 			jf.installArrayInner(f, jt)
 			for _, g := range f.AnonFuncs {
@@ -1044,5 +1046,91 @@ func (jf *JSONFamily) installArrayUnOuter(f *ssa.Function, jt *jsonType) {
 		return append(fs, jf.receiverFrame(e, args[0], T, pre, post)...)
 	}
 	c.Modifies = jf.receiverKeys(T, nil)
+	jf.Em.W.Contracts[f.String()] = c
+}
+
+// ---------------------------------------------------------------- oneOf components (encoding)
+//
+//	emitted func (O).MarshalJSON() ([]byte, error)                      [oneOf schemas]
+//	  ensures err == nil ==> some variant is set, and for the first set variant V (in schema order)
+//	          the result is the document MarshalJSON of V's value yields (closed object, V's members)
+//	  ensures no variant set ==> err != nil
+//
+// Decoding of oneOf components (discriminator switch, first-success probing) is
+// not under contract.
+
+type oneOfVariant struct {
+	field int
+	jt    *jsonType
+}
+
+func (jf *JSONFamily) oneOfVariants(jt *jsonType) ([]oneOfVariant, string) {
+	st := jt.Named.Underlying().(*types.Struct)
+	var out []oneOfVariant
+	for _, v := range jt.Schema.OneOf {
+		if v.Component == "" {
+			return nil, "inline oneOf variant"
+		}
+		idx := -1
+		for i := 0; i < st.NumFields(); i++ {
+			if normName(st.Field(i).Name()) == normName(v.Component) {
+				idx = i
+			}
+		}
+		if idx < 0 {
+			return nil, "no field for oneOf variant " + v.Component
+		}
+		k, inner := wrapperOf(st.Field(idx).Type())
+		n, ok := inner.(*types.Named)
+		if k != "Maybe" || !ok {
+			return nil, "oneOf variant field is not Maybe[T]"
+		}
+		vj := jf.Types[n.Obj().Name()]
+		if vj == nil || vj.Problem != "" || !vj.Schema.IsObjectLike() {
+			return nil, "oneOf variant " + v.Component + " is not an object type under contract"
+		}
+		out = append(out, oneOfVariant{field: idx, jt: vj})
+	}
+	return out, ""
+}
+
+func (jf *JSONFamily) installOneOfOuter(f *ssa.Function, jt *jsonType) {
+	vars, problem := jf.oneOfVariants(jt)
+	if problem != "" {
+		jf.note(jt.Named.Obj().Name() + ": " + problem)
+		return
+	}
+	c := newFamilyContract(f)
+	c.Options["family"] = "json-marshal-oneof"
+	spec := func(e *FuncEnc, cv, res, err string, st0 *state) []NamedFormula {
+		e.jsonEvents()
+		ok := eq(sx("if_tag", err), "0")
+		var out []NamedFormula
+		var earlier []string
+		var anySet []string
+		for _, v := range vars {
+			ft := jt.Named.Underlying().(*types.Struct).Field(v.field).Type()
+			fld := sx(e.D.FieldSelector(jt.Named, v.field), cv)
+			is := sx(e.D.FieldSelector(ft, structFieldIndex(ft, "IsSet")), fld)
+			val := sx(e.D.FieldSelector(ft, structFieldIndex(ft, "Value")), fld)
+			chosen := and(append([]string{is}, earlier...)...)
+			for _, nf := range jf.outerSpec(e, v.jt, val, res, err, st0) {
+				nf.Name = nf.Name + "@" + v.jt.Named.Obj().Name()
+				nf.Formula = implies(chosen, nf.Formula)
+				out = append(out, nf)
+			}
+			earlier = append(earlier, not(is))
+			anySet = append(anySet, is)
+		}
+		out = append(out, NamedFormula{Name: "ensures#some-variant", Props: []string{"C06", "C07"}, Formula: implies(ok, or(anySet...))})
+		return out
+	}
+	c.RetHook = func(e *FuncEnc, results []string) []NamedFormula {
+		return spec(e, e.val[f.Params[0]], results[0], results[1], e.entry)
+	}
+	c.PostHook = func(e *FuncEnc, args, results []string, pre, post *state) []NamedFormula {
+		return spec(e, args[0], results[0], results[1], pre)
+	}
+	c.Modifies = map[string]bool{}
 	jf.Em.W.Contracts[f.String()] = c
 }
